@@ -41,7 +41,7 @@ func c04candidate(epoch idx.Epoch, creator idx.ValidatorID, sp *cons.Ev, others 
 
 func runC04(c *ev.Ctx) {
 	c.Rule = "DAGs generated through a real instance (forks <1/3, lag, sleeper regime). A test instance T receives the events by Process only. At seeded points (preferring events that start a new frame) a restarted copy of T (fresh Build counter, default-size forkless-cause cache) gets a burst of K speculative Builds " +
-		"(K in {0,1,2,17,254,255,256,257,300,600; thorough also 1000,3000}; variants: self-parent only, random parent subsets, the full event repeated, candidates of other creators) followed (in a third of the points after re-creating the consensus object over the same vecfc.Index object, which restarts the Build counter) by the Build of the real event: EVERY build's frame must equal the reference's highest allowed frame (cap 100). " +
+		"(K in {0,1,2,17,254,255,256,257,300,600; thorough also 1000,3000}; in every eighth DAG one frame-starting event gets K=65536: a self-parent-only decoy with the real event's Lamport time, 65535 parentless fillers, then the real event as build number 2^16; variants: self-parent only, random parent subsets, the full event repeated, candidates of other creators) followed (in a third of the points after re-creating the consensus object over the same vecfc.Index object, which restarts the Build counter) by the Build of the real event: EVERY build's frame must equal the reference's highest allowed frame (cap 100). " +
 		"Process side: on throw-away copies, clones of valid events with fresh IDs and claimed frame in {0,1,sp-1,sp..max,max+1,max+2,max+100,2^31-3} are accepted iff the reference allows the frame. One long-lag case per 40 DAGs: a validator silent for >100 frames then building (Build must give self-parent+100; Process accepts up to the true maximum and rejects maximum+1). " +
 		"non-trivial = distinct (DAG, point) where the real event's highest allowed frame exceeds its self-parent's frame, or the build was preceded by >=256 speculative builds"
 	c.Assumptions = []string{"reference frame rule = C04 statement evaluated on the graph closure", "cheaters < 1/3"}
@@ -79,9 +79,14 @@ func runC04(c *ev.Ctx) {
 			}
 			isRoot := sp == nil || sp.Frame() != e.Frame()
 			take := points < 10 && ((isRoot && r.Intn(4) == 0) || r.Intn(40) == 0)
+			kk := ks
+			if i%8 == 3 && points == 0 && isRoot && sp != nil && len(e.Parents()) > 1 {
+				// counter-wrap point: a decoy build, 65535 parentless fillers, then the real event as build number 2^16
+				take, kk = true, []int{c04Wrap}
+			}
 			if take {
 				points++
-				if !c04Point(c, r, i, k, d, T, ref, e, sp, byID, ks) {
+				if !c04Point(c, r, i, k, d, T, ref, e, sp, byID, kk) {
 					return
 				}
 			}
@@ -100,6 +105,9 @@ func runC04(c *ev.Ctx) {
 		}
 	})
 }
+
+// c04Wrap is the burst length at which a 16-bit temporary-ID counter would hand out the first ID again.
+const c04Wrap = 1 << 16
 
 // c04Point runs the build burst and the process-side frame sweep at one DAG state. Returns false after a violation.
 func c04Point(c *ev.Ctx, r *rand.Rand, caseN, k int, d *cons.DAG, T *cons.Inst, ref *cons.Ref, e, sp *cons.Ev, byID map[hash.Event]*cons.Ev, ks []int) bool {
@@ -165,6 +173,11 @@ func c04Point(c *ev.Ctx, r *rand.Rand, caseN, k int, d *cons.DAG, T *cons.Inst, 
 	for n := 0; n < K; n++ {
 		var cand *cons.Ev
 		switch {
+		case K == c04Wrap && n > 0:
+			cand = c04candidate(plan.Epoch, e.Creator(), nil, nil) // parentless: asks the forkless-cause cache nothing, so evicts nothing
+		case K == c04Wrap:
+			cand = c04candidate(plan.Epoch, e.Creator(), sp, nil)
+			cand.SetLamport(e.Lamport())
 		case variantMode == 0 || (variantMode == 1 && n%3 == 0):
 			cand = c04candidate(plan.Epoch, e.Creator(), sp, nil)
 			if n%2 == 0 {
@@ -207,7 +220,7 @@ func c04Point(c *ev.Ctx, r *rand.Rand, caseN, k int, d *cons.DAG, T *cons.Inst, 
 		}
 	}
 	real := c04candidate(plan.Epoch, e.Creator(), sp, others)
-	if r.Intn(3) == 0 && len(others) > 0 {
+	if K != c04Wrap && r.Intn(3) == 0 && len(others) > 0 {
 		// speculative builds carrying the real event's Lamport time but fewer parents, then the consensus object is
 		// re-created over the SAME index object: the Build counter starts again, so the same temporary IDs are handed
 		// out a second time, now for other parents
@@ -224,7 +237,7 @@ func c04Point(c *ev.Ctx, r *rand.Rand, caseN, k int, d *cons.DAG, T *cons.Inst, 
 		B = B.RestartKeepIndex()
 		c.Count("restarts_keeping_the_index_object_between_builds", 1)
 	}
-	if r.Intn(3) == 0 {
+	if K != c04Wrap && r.Intn(3) == 0 {
 		// an emitter that builds a draft, then adds parents to the SAME object (which now carries the
 		// draft's ID) and builds again
 		draft := c04candidate(plan.Epoch, e.Creator(), sp, nil)
@@ -247,6 +260,9 @@ func c04Point(c *ev.Ctx, r *rand.Rand, caseN, k int, d *cons.DAG, T *cons.Inst, 
 	}
 	if K >= 255 {
 		c.Count("bursts_of_255_or_more", 1)
+	}
+	if K == c04Wrap {
+		c.Count("bursts_of_65536_builds_before_a_frame_starting_event", 1)
 	}
 	// ---- process side: claimed-frame sweep on throw-away copies
 	trueMax, _ := ref.TrueMaxFrame(e)
